@@ -365,6 +365,9 @@ class Canon:
         if not ents and not (outer and n.id in self.du.params):
             # use before any positioned definition (closure, comprehension-only name): fall back to every definition
             ents = list(self.entries.get(n.id, []))
+        sel = self._select(n.id, ents, outer, at, stack, depth)
+        if sel is not None:
+            return sel
         alts: list[ast.AST] = []
         for v, how, st in ents:
             key = f"{n.id}@{id(v)}"
@@ -396,6 +399,39 @@ class Canon:
             return next(iter(uniq.values()))
         return ast.Call(func=ast.Name(id="ANY", ctx=ast.Load()), args=[uniq[k] for k in sorted(uniq)], keywords=[])
 
+    def _select(self, name: str, ents, outer: bool, at, stack, depth) -> ast.AST | None:
+        """Two reaching plain assignments that are the arms of one `if` (if/else, or default followed by a conditional override)
+        are written as the conditional expression `B if test else A`, so that the statement form and the expression form of a
+        selection have the same canonical text."""
+        if outer or len(ents) != 2 or any(how != "assign" or st is None for _v, how, st in ents):
+            return None
+        (v0, _h0, s0), (v1, _h1, s1) = ents
+        l0, l1 = self._block_of(s0), self._block_of(s1)
+        if l0 is None or l1 is None:
+            return None
+        k0, k1 = f"{name}@{id(v0)}", f"{name}@{id(v1)}"
+        if k0 in stack or k1 in stack:
+            return None
+
+        def exits(block: list) -> bool:
+            return bool(block) and isinstance(block[-1], (ast.Return, ast.Continue, ast.Break, ast.Raise))
+
+        def cv(v, st, key):
+            return self._conv(v, st, stack + (key,), depth + 1, {})
+
+        # if/else
+        if isinstance(l0[0], ast.If) and l0[0] is l1[0] and {l0[1], l1[1]} == {"body", "orelse"} and not exits(l0[0].body) and not exits(l0[0].orelse):
+            ifs = l0[0]
+            body_v, else_v = ((v0, s0, k0), (v1, s1, k1)) if l0[1] == "body" else ((v1, s1, k1), (v0, s0, k0))
+            return ast.IfExp(test=self._conv(ifs.test, ifs, stack, depth + 1, {}), body=cv(*body_v), orelse=cv(*else_v))
+        # default, then conditional override
+        for (va, sa, ka, la), (vb, sb, kb, lb) in (((v0, s0, k0, l0), (v1, s1, k1, l1)), ((v1, s1, k1, l1), (v0, s0, k0, l0))):
+            ifs = lb[0]
+            if isinstance(ifs, ast.If) and lb[1] == "body" and not exits(ifs.body) and not self._inside(sa, ifs) \
+                    and not any(self._inside(e[2], b) for e in self.entries.get(name, []) for b in ifs.orelse):
+                return ast.IfExp(test=self._conv(ifs.test, ifs, stack, depth + 1, {}), body=cv(vb, sb, kb), orelse=cv(va, sa, ka))
+        return None
+
     def text(self, e: ast.AST | None, at: ast.AST | None = None) -> str:
         if e is None:
             return ""
@@ -403,7 +439,19 @@ class Canon:
 
     def alts(self, e: ast.AST, at: ast.AST | None = None) -> list[str]:
         """Canonical texts an expression may stand for (the alternatives of a top-level ANY are split)."""
-        n = self.node(e, at)
-        if isinstance(n, ast.Call) and isinstance(n.func, ast.Name) and n.func.id == "ANY":
-            return [" ".join(ast.unparse(a).split()) for a in n.args]
-        return [" ".join(ast.unparse(n).split())]
+        out: list[str] = []
+
+        def split(n: ast.AST) -> None:
+            if isinstance(n, ast.Call) and isinstance(n.func, ast.Name) and n.func.id == "ANY":
+                for a in n.args:
+                    split(a)
+            elif isinstance(n, ast.IfExp):
+                split(n.body)
+                split(n.orelse)
+            else:
+                t = " ".join(ast.unparse(n).split())
+                if t not in out:
+                    out.append(t)
+
+        split(self.node(e, at))
+        return out
